@@ -338,6 +338,32 @@ func (e *explorer) model(extra string) []SymVar {
 	}
 	var out []SymVar
 	if e.z.check() == "sat" {
+		// prefer the all-clear environment: greedily set one-bit inputs
+		// (fault/outcome flags) to 0 where that keeps the query satisfiable,
+		// so counterexamples are small and canonical.
+		nbits := 0
+		for _, v := range e.vars {
+			if v.Width == 1 {
+				nbits++
+			}
+		}
+		if nbits > 0 && nbits <= 64 {
+			for _, v := range e.vars {
+				if v.Width != 1 {
+					continue
+				}
+				c := "(= " + v.term + " #b0)"
+				e.z.send("(push)")
+				e.z.send("(assert " + c + ")")
+				if e.z.check() == "sat" {
+					e.z.send("(pop)")
+					e.z.send("(assert " + c + ")")
+				} else {
+					e.z.send("(pop)")
+				}
+			}
+			e.z.check()
+		}
 		for _, v := range e.vars {
 			c := *v
 			c.Value = e.z.getValue(v.term)
